@@ -475,6 +475,18 @@ def main():
             toks = set(re.findall(r"[A-Za-z_]+", full))
             if toks & set(LIB_TYPES) or p["id"].startswith("seed:"):
                 violations.append(("send_sync_leak:" + p["id"], "producer `%s` (result type %s) %s: the program compiles, so a value of one of the library's transaction-bound types can cross a thread boundary" % (p["expr"], p.get("outfull", "?"), route_names[n[0]]), {"program": fns[n], "producer": p["id"], "route": n[0]}))
+    # The handle and data types of the library borrow the transaction; a lifetime-route program that
+    # carries one of them out and still compiles has found a hole, whatever the run shows (a Bucket
+    # or Cursor cannot even be rendered).  Owned results (integers, bools, errors, copied bytes) may
+    # compile.
+    HANDLE_TYPES = ("Tx", "Bucket", "Cursor", "Data", "KVPair", "BucketName", "Range", "Buckets", "KVPairs")
+    for n in list(compiled):
+        if n[0] in "abcf" and n in owner:
+            i, p = owner[n]
+            full = p.get("outfull", "")
+            toks = set(re.findall(r"[A-Za-z_]+", full))
+            if toks & set(HANDLE_TYPES) or (p["id"].startswith("seed:") and p["id"] != "seed:Bytes"):
+                violations.append(("handle_escapes:" + p["id"], "producer `%s` (result type %s) %s: the program compiles although the value borrows the transaction" % (p["expr"], full or "?", route_names[n[0]]), {"program": fns[n], "producer": p["id"], "route": n[0]}))
     # argument / database routes must be rejected
     for n, _ in ARG_ROUTES:
         st = res.get(n, ("type", [], []))
